@@ -295,6 +295,14 @@ DoPhase ==
   /\ NodeStep([t |-> "probe"], Reaction(Line))
   /\ UNCHANGED <<calls, runinfo, viol, kf, nt>>
 
+\* a late or repeated block_added notification reached the plugin: the node's state does not change
+DoStale ==
+  /\ Line.ev = "stale"
+  /\ NodeStep([t |-> "probe"], Reaction(Line))
+  /\ calls' = CallsAfter(Line, calls)
+  /\ Acc(Line, {})
+  /\ UNCHANGED runinfo
+
 \* end of run: C09 (some probe set was settled with the right preimage), report
 DoEnd ==
   /\ Line.ev = "end"
@@ -313,7 +321,7 @@ Next ==
   /\ l <= N
   /\ l' = l + 1
   /\ \/ DoReset \/ DoHtlc \/ DoExec \/ DoDeliver \/ DoPayPart \/ DoPartDone \/ DoPayReturn
-     \/ DoTick \/ DoHeight \/ DoCrash \/ DoCall \/ DoDrained \/ DoProbe \/ DoPhase \/ DoEnd
+     \/ DoTick \/ DoHeight \/ DoCrash \/ DoCall \/ DoDrained \/ DoProbe \/ DoPhase \/ DoStale \/ DoEnd
 
 Spec == Init /\ [][Next]_ovars
 
